@@ -218,9 +218,10 @@ def correspondence(ctx, d: Path) -> None:
 # oracle: generated programs
 
 
-# a plugin with two checks under another prefix: XYZ100 on the literal 4242, XYZ123 on the literal 4244
+# a plugin with checks under another prefix: XYZ100 on the literal 4242, XYZ123 on the literal 4244, and two whose ids have
+# fewer than three digits (XYZ7 on 4247, XYZ42 on 4249): a diagnostic is printed as [XYZ7], and `# noqa: XYZ7` is its code
 PLUGIN = {"probe_c08/__init__.py": ""}
-for _code, _value in ((100, 4242), (123, 4244)):
+for _code, _value in ((100, 4242), (123, 4244), (7, 4247), (42, 4249)):
     PLUGIN[f"probe_c08/k{_code}.py"] = f"""
 from dataclasses import dataclass
 from mypy.nodes import IntExpr
@@ -279,6 +280,8 @@ def diag_units(i: int, rng, sep: str | None) -> list[Unit]:
         Unit([f"{v} = 4242"], [(0, v)], "custom-prefix"),
         Unit([f"{v} = int(4244)"], [(0, v)], "custom-prefix-same-number"),
         Unit([f"{v} = 4242, list()"], [(0, v)], "custom-prefix-and-builtin"),
+        Unit([f"{v} = 4247"], [(0, v)], "custom-prefix-short-id"),
+        Unit([f"{v} = 4249, int(4247)"], [(0, v)], "custom-prefix-short-ids-and-builtin"),
         # multi-line diagnosed nodes: the diagnostic sits on the first line, the node ends lines later
         Unit([f"def w{i}(lines: list[str]) -> None:", '    with open("file", "w") as f:', "        for line in lines:", "            f.write(line)", ""], [], "for-writelines"),
         Unit([f"def r{i}(p: str) -> str:", "    with open(p) as fh:", "        data = fh.read()", "    return data", ""], [], "with-read"),
@@ -380,7 +383,7 @@ def fixed_files() -> list[GenFile]:
         mk(f"a_str_{nm.lower()}.py", [f's = "a{ch}b"', "y = int(1)", "z = list()"])
     mk("a_crlf_bom.py", ["x = int(0)", "y = int(1); w = list()", "z = int(2)"], ["\r\n"] * 3, bom=True)
     mk("a_cr.py", ["x = int(0)", "y = int(1)", "z = int(2)"], ["\r", "\r", ""])
-    mk("a_prefix.py", ["x = int(4244)", "y = 4242, list()", "z = 4242"])
+    mk("a_prefix.py", ["x = int(4244)", "y = 4242, list()", "z = 4242", "s = 4247", "t = 4249, 4247"])
     mk("a_strings.py", ['v1 = "# noqa", int(8)', "v2 = '# noqa: FURB123 FURB112 ', int(8), list()", 'v3 = int(8), "x  # noqa"', "v4 = int(8), '# noqa: '"])
     mk(
         "a_multiline.py",
@@ -393,7 +396,7 @@ def fixed_files() -> list[GenFile]:
 
 COMMENT_GAPS = ["  ", "  ", " ", "\t", ""]
 COMMENT_TRAILS = ["", "", "", " ", "\t ", "\xa0"]
-FOREIGN = ["FURB999", "FURB100", "XYZ999", "XYZ124", "ABCD123", "FURB12", "FURB1234", "furb123", "123", "E501"]
+FOREIGN = ["FURB999", "FURB100", "XYZ999", "XYZ124", "ABCD123", "FURB12", "FURB1234", "furb123", "123", "E501", "XYZ007", "XYZ042", "XYZ70", "XYZ4", "XYZ"]
 
 
 def choose_comment(rng, codes_on_line: list[str]) -> tuple[str, Any, str]:
@@ -652,7 +655,7 @@ def oracle(ctx, d: Path) -> None:
             res.bump("oracle_file_variants")
             # the model, given the old report and the annotated file, must predict the new report
             model_reqs.append({"verb": "noqa_report", "by": "filename", "files": [[gf.name, universal(gf.raw({ln: cm[0] for ln, cm in chosen.items()}))]],
-                               "items": [{"k": "diag", "file": t[0], "line": t[1], "col": t[2] - 1, "prefix": t[3][:-3], "code": int(t[3][-3:]), "msg": "m"} for t in before]})
+                               "items": [{"k": "diag", "file": t[0], "line": t[1], "col": t[2] - 1, "prefix": t[3].rstrip("0123456789"), "code": int(t[3][len(t[3].rstrip("0123456789")):]), "msg": "m"} for t in before]})
             model_want.append((gf.name, k, [(t[1], t[2], t[3]) for t in have]))
             if gf.features.get("sep"):
                 res.bump(f"oracle_sep_{gf.features['sep']}_{gf.features['placement']}")
